@@ -33,4 +33,32 @@ def runWith (stp : List String → String × Bool → List String × List String
   | ig, file :: rest => (stp ig file).2 ++ runWith stp (stp ig file).1 rest
 
 
+/-! `check_messages` (lib/check/__init__.py:815-897), reduced to its two accumulators: `found_unusual_characters` (a character is
+reported once per file) and `msgid_counter` (`duplicate-message-definition` at the second occurrence).  A message = (msgid, unusual
+characters of its msgstr as code points). -/
+
+/-- one message against the accumulators: new accumulators, tags -/
+def checkMessage (acc : List Nat × List String) (m : String × List Nat) : (List Nat × List String) × List String :=
+  let dup := if (acc.2.filter (· == m.1)).length == 1 then ["duplicate-message-definition " ++ m.1] else []
+  let fresh := m.2.filter (fun c => !acc.1.contains c)
+  let uc := if fresh.isEmpty then [] else ["unusual-character-in-translation " ++ m.1]
+  ((acc.1 ++ fresh, m.1 :: acc.2), dup ++ uc)
+
+def checkMessagesFrom (acc : List Nat × List String) : List (String × List Nat) → (List Nat × List String) × List String
+  | [] => (acc, [])
+  | m :: ms =>
+    let r := checkMessage acc m
+    let r2 := checkMessagesFrom r.1 ms
+    (r2.1, r.2 ++ r2.2)
+
+/-- the code: `found_unusual_characters = set()`, `msgid_counter = Counter()` at the top of every call -/
+def checkMessagesPerCall (file : List (String × List Nat)) : List String := (checkMessagesFrom ([], []) file).2
+
+/-- the variant the pin `accumulators_per_call` excludes: the accumulators live at module level and survive the call -/
+def runSharedAccumulators : List Nat × List String → List (List (String × List Nat)) → List String
+  | _, [] => []
+  | acc, file :: rest =>
+    let r := checkMessagesFrom acc file
+    r.2 ++ runSharedAccumulators r.1 rest
+
 end I18n.CliWitness
